@@ -98,7 +98,7 @@ func (k Keeper) deleteValidatorAward(ctx sdk.Ctx, address sdk.Address) {
 // Mints sdk.Coins and sends them onto an address
 func (k Keeper) mint(ctx sdk.Ctx, amount sdk.Int, address sdk.Address) sdk.Result {
 	coins := sdk.NewCoins(sdk.NewCoin(k.StakeDenom(ctx), amount))
-	mintErr := k.authKeeper.MintCoins(ctx, types.StakedPoolName, coins.Add(coins))
+	mintErr := k.authKeeper.MintCoins(ctx, types.StakedPoolName, coins)
 	if mintErr != nil {
 		return mintErr.Result()
 	}
